@@ -2,6 +2,9 @@
 """Regenerates the `fixed` list of known_findings.json from /repo's "fix:" commits."""
 import json, subprocess
 PROP = {
+"Optional under coercion reported only":"C02",
+"the group notation of dependent_required":"C03",
+"invalid base64 and pathological regex":"C03",
 "is_recursive raised KeyError":"C20",
 "an invalid or missing aliased InitVar":"C10,C11",
 "cyclic or self-referencing order":"C16",
